@@ -33,7 +33,7 @@ MANIFEST = dict(
 KNOWN_NOISY = "EarlyStopWithStderrOutput"
 KNOWN_RAW = "DecompressorMissingSearchesRaw"
 GEN_TARGETS = ["close_is_error", "select_strategy", "should_preprocess", "should_decompress", "select_binary",
-               "binary_detection"]
+               "binary_detection", "pre_update_value", "pre_update_switch", "zip_update"]
 PIPE_BUF = 65536
 # a child is certainly still writing when its reader goes away only if its output exceeds what the reader may have
 # taken in its reads before stopping (at most one 64 KiB buffer) plus what a pipe can hold (64 KiB): BIG is 512 KB
